@@ -248,6 +248,19 @@ def suite_missing(ctx, case):
     except ValueError: ok = False
     except Exception: ok = None
     ctx.pred('missing', case, ok == (not case['missing']), 'System.check() outcome %r with missing %s' % (ok, case['missing']), key='C16:check')
+    # the same description with other legal type labels (integers whose values are not their positions, 0 among them)
+    for labels in ([2, 0, 5, 9], ['poly', 0, 'B', 4]):
+        s2 = G.build_system(sd, types=labels[:sd['n']])
+        outs = []
+        for fn in (s2.check, s2.createPRISM):
+            try:
+                with warnings.catch_warnings():
+                    warnings.simplefilter('ignore'); fn()
+                outs.append('ok')
+            except ValueError: outs.append('ValueError')
+            except Exception as e: outs.append(type(e).__name__)
+        want = 'ok' if not case['missing'] else 'ValueError'
+        ctx.pred('missing', case, outs == [want, want], 'type labels %s: check()/createPRISM() -> %s with missing %s (expected %s)' % (labels[:sd['n']], outs, case['missing'], want), key='C16:check')
 
 SUITES = {'history': suite_history, 'missing': suite_missing}
 
